@@ -33,7 +33,8 @@ TopAnc(P)   == JumpK([i \in Nodes(P) |-> IF Par(P, i) \in Nodes(P) THEN Par(P, i
 WF(P)       == /\ Len(P) >= 1
                /\ P[1] = -1
                /\ \A i \in 1 .. Len(P) - 1 : Par(P, i) \in Nodes(P)
-               /\ LET top == TopAnc(P) IN \A i \in Nodes(P) : top[i] = 0
+               /\ \/ \A i \in 1 .. Len(P) - 1 : Par(P, i) < i                   \* parents first: every chain descends to node 0 (linear; decides the large sorted results)
+                  \/ LET top == TopAnc(P) IN \A i \in Nodes(P) : top[i] = 0
 Sorted(P)   == \A i \in 1 .. Len(P) - 1 : Par(P, i) < i
 
 IsTip(P, i)  == Kids(P, i) = {}
